@@ -54,6 +54,22 @@ theorem reparent_get (p : Nat) : ∀ (cs : List Nat) (σ : Store α) (a : Nat),
 def Detached (σ : Store α) (p c : Nat) : Prop :=
   ∃ rc, σ[c]? = some rc ∧ rc.parent = none ∧ rc.view = false ∧ ¬ Up σ p c
 
+/-- `c` may be attached below `p`: not a view, listed by no (non-view) node other than `p`, not on `p`'s
+parent chain.  (Weaker than `Detached`: the parent field may hold anything.) -/
+def Loose (σ : Store α) (p c : Nat) : Prop :=
+  ∃ rc, σ[c]? = some rc ∧ rc.view = false ∧
+    (∀ (a : Nat) (ra : NodeRec α), σ[a]? = some ra → ra.view = false → c ∈ ra.kids → a = p) ∧ ¬ Up σ p c
+
+theorem Detached.loose {σ : Store α} {p c : Nat}
+    (hpar : ∀ (i : Nat) (r : NodeRec α) (c : Nat), σ[i]? = some r → r.view = false → c ∈ r.kids →
+      ∃ rc, σ[c]? = some rc ∧ rc.parent = some i ∧ rc.view = false)
+    (h : Detached σ p c) : Loose σ p c := by
+  obtain ⟨rc, hrc, hpn, hvc, hup⟩ := h
+  refine ⟨rc, hrc, hvc, fun a ra hra hva hc => ?_, hup⟩
+  obtain ⟨rc', hrc', hpc, _⟩ := hpar a ra c hra hva hc
+  rw [hrc] at hrc'; cases hrc'
+  rw [hpn] at hpc; cases hpc
+
 /-- the store after `self._children = ks; for c in cs: c._parent = self` -/
 def attachRaw (σ : Store α) (p : Nat) (ks cs : List Nat) : Store α :=
   reparent (upd σ p (fun r => { r with kids := ks })) p cs
@@ -77,7 +93,7 @@ theorem attachRaw_get (σ : Store α) (p : Nat) (ks cs : List Nat) (a : Nat) :
 theorem pre_attach {σ : Store α} {p : Nat} {rp : NodeRec α} {ks cs : List Nat}
     (hp : Pre Hc σ p) (hrp : σ[p]? = some rp) (hvp : rp.view = false)
     (hsub : ∀ c ∈ cs, c ∈ ks)
-    (hks : ∀ k ∈ ks, k ∈ rp.kids ∨ (k ∈ cs ∧ Detached σ p k)) :
+    (hks : ∀ k ∈ ks, k ∈ rp.kids ∨ (k ∈ cs ∧ Loose σ p k)) :
     Pre Hc (attachRaw σ p ks cs) p := by
   obtain ⟨tp, htp⟩ := hp.wf p (lt_of_get_some hrp)
   have hlen : (attachRaw σ p ks cs).length = σ.length := by
@@ -86,13 +102,13 @@ theorem pre_attach {σ : Store α} {p : Nat} {rp : NodeRec α} {ks cs : List Nat
   have hkfacts : ∀ k ∈ ks, ∃ rk, σ[k]? = some rk ∧ rk.view = false ∧ ¬ Reach σ k p ∧
       (k ∈ rp.kids → rk.parent = some p) := by
     intro k hk
-    rcases hks k hk with hown | ⟨_, rk, hrk, hpn, hvk, hup⟩
+    rcases hks k hk with hown | ⟨_, rk, hrk, hvk, _, hup⟩
     · obtain ⟨rk, hrk, hpk, hvk⟩ := hp.par p rp k hrp hvp hown
       exact ⟨rk, hrk, hvk, not_reach_of_kid hrp hown htp, fun _ => hpk⟩
     · refine ⟨rk, hrk, hvk, fun hr => hup (hr.up hp.par rk hrk hvk), fun hown => ?_⟩
       obtain ⟨rk', hrk', hpk, _⟩ := hp.par p rp k hrp hvp hown
       rw [hrk] at hrk'; cases hrk'
-      rw [hpn] at hpk; cases hpk
+      exact hpk
   have hpne : ∀ k ∈ ks, k ≠ p := by
     intro k hk hkp
     obtain ⟨_, _, _, hn, _⟩ := hkfacts k hk
@@ -149,13 +165,12 @@ theorem pre_attach {σ : Store α} {p : Nat} {rp : NodeRec α} {ks cs : List Nat
         obtain ⟨rc, hrc, hpc, hvc⟩ := hp.par a ra c hra hv' hc'
         have hm : c ∉ cs := by
           intro hm
-          rcases hks c (hsub c hm) with hown | ⟨_, rk, hrk, hpn, _, _⟩
+          rcases hks c (hsub c hm) with hown | ⟨_, rk, _, _, hun, _⟩
           · obtain ⟨rc', hrc', hpc', _⟩ := hp.par p rp c hrp hvp hown
             rw [hrc] at hrc'; cases hrc'
             rw [hpc] at hpc'; cases hpc'
             exact hap rfl
-          · rw [hrc] at hrk; cases hrk
-            rw [hpc] at hpn; cases hpn
+          · exact hap (hun a ra hra hv' hc')
         refine ⟨attachRec p ks cs c rc, by rw [attachRaw_get, hrc]; rfl, ?_, hvc⟩
         simp [attachRec, hm]; exact hpc
 
